@@ -34,18 +34,26 @@ PAD = "x" * 1000
 
 
 def hidden(tier):
-    h = [dict(name="plain", env={"LC_ALL": "C", "TZ": "UTC"}),
-         dict(name="seed1", seed="1", env={"LC_ALL": "C.utf8", "LC_NUMERIC": "C.utf8", "TZ": "Asia/Kolkata",
-                                           "VERIF_PAD1": PAD * 4}),
-         dict(name="seed2", seed="2", setarch=True,
+    """The hidden-input settings of the runs.  `via`: the working directory is entered by its real name or
+    through a symbolic link; `pwd`: what $PWD says (real / link / dotdot = link/../link / garbage / unset);
+    the other variables are everything a libc or Filename call of the tools may consult."""
+    h = [dict(name="plain", via="real", pwd="real", env={"LC_ALL": "C", "TZ": "UTC"}),
+         dict(name="seed1", seed="1", via="link", pwd="link",
+              env={"LC_ALL": "C.utf8", "LC_NUMERIC": "C.utf8", "TZ": "Asia/Kolkata", "VERIF_PAD1": PAD * 4,
+                   "TMPDIR": "/nonexistent/tmp", "OLDPWD": "/"}),
+         dict(name="seed2", seed="2", setarch=True, via="real", pwd="unset", unset=["OLDPWD", "HOME"],
               env={"LC_ALL": "de_DE.UTF-8", "LC_NUMERIC": "de_DE.UTF-8", "LANG": "de_DE.UTF-8",
-                   "TZ": "America/St_Johns", "HOME": "/nonexistent", "XDG_DATA_HOME": "/nonexistent/x"}),
-         dict(name="rev", seed="rev", env={"LC_ALL": "POSIX", "TZ": "Pacific/Chatham", "POSIXLY_CORRECT": "1",
-                                           "VERIF_PAD1": PAD * 30, "VERIF_PAD2": PAD * 30}),
-         dict(name="seed3", seed="3", setarch=True, env={"LANG": "fr_FR", "LC_NUMERIC": "POSIX", "TZ": ""}),
-         dict(name="seed4", seed="4", env={"LC_ALL": "tr_TR.ISO-8859-9", "VERIF_PAD1": PAD * 100})]
+                   "TZ": "America/St_Johns", "XDG_DATA_HOME": "/nonexistent/x"}),
+         dict(name="rev", seed="rev", via="link", pwd="garbage",
+              env={"LC_ALL": "POSIX", "TZ": "Pacific/Chatham", "POSIXLY_CORRECT": "1", "HOME": "/nonexistent",
+                   "PANDA_ROOT": "/nonexistent/root", "VERIF_PAD1": PAD * 30, "VERIF_PAD2": PAD * 30}),
+         dict(name="seed3", seed="3", setarch=True, via="link", pwd="dotdot",
+              env={"LANG": "fr_FR", "LC_NUMERIC": "POSIX", "TZ": "", "TMPDIR": ".", "CWD": "/"}),
+         dict(name="seed4", seed="4", via="real", pwd="link",
+              env={"LC_ALL": "tr_TR.ISO-8859-9", "VERIF_PAD1": PAD * 100})]
     if tier == "thorough":
-        h += [dict(name="seed%d" % s, seed=str(s), setarch=bool(s % 2), env={"LC_ALL": "C"}) for s in (5, 6, 7, 8)]
+        h += [dict(name="seed%d" % s, seed=str(s), setarch=bool(s % 2), via=("link", "real")[s % 2],
+                   pwd=("real", "dotdot", "link", "unset")[s % 4], env={"LC_ALL": "C"}) for s in (5, 6, 7, 8)]
     return h
 
 
@@ -257,22 +265,39 @@ def strip_ident(kind, data):
     return None, data
 
 
-def tool_run(tool, args, cwd, h, shuf, trace=None, epoch=EPOCH):
+def link_of(d):
+    return d + "-ln"
+
+
+def tool_run(tool, args, d, h, shuf, trace=None, epoch=EPOCH):
+    """Run a tool in directory d (real path; link_of(d) is a symbolic link to it) under hidden input h."""
     env = {"SOURCE_DATE_EPOCH": epoch} if epoch else {}
-    for v in ("LC_ALL", "LC_NUMERIC", "LANG", "TZ", "POSIXLY_CORRECT"):
-        env[v] = ""
+    unset = ["LC_ALL", "LC_NUMERIC", "LANG", "TZ", "POSIXLY_CORRECT", "TMPDIR", "PANDA_ROOT", "CWD"] + h.get("unset", [])
+    if not epoch:
+        unset.append("SOURCE_DATE_EPOCH")
     env.update(h.get("env", {}))
-    env = {k: v for k, v in env.items()}
+    cwd = link_of(d) if h.get("via") == "link" else d
+    pwd = {"real": d, "link": link_of(d), "garbage": "/nonexistent/dir",
+           "dotdot": os.path.join(link_of(d), "..", os.path.basename(link_of(d)))}.get(h.get("pwd"))
+    if pwd:
+        env["PWD"] = pwd
+    else:
+        unset.append("PWD")
     if h.get("seed"):
         env["LD_PRELOAD"] = shuf
         env["SHUF_SEED"] = h["seed"]
+    unset = [v for v in unset if v not in env]
     exe = build.tool(tool)
+    pre = []
+    for v in unset:
+        pre += ["-u", v]
     if h.get("setarch"):
-        r = run.run_tool("/usr/bin/setarch", [os.uname().machine, "-R", exe] + args, cwd=cwd, trace=trace,
-                         env=env, timeout=300)
-    else:
-        r = run.run_tool(tool, args, cwd=cwd, trace=trace, env=env, timeout=300)
-    return r
+        pre += ["/usr/bin/setarch", os.uname().machine, "-R"]
+    if h["name"] == "plain":
+        # the plain run inherits the environment of the check and is recorded by the run monitor
+        return run.run_tool(tool, args, cwd=cwd, trace=trace, env=env, timeout=300)
+    # (variables can only be REMOVED by going through env(1); run_tool adds to the inherited environment)
+    return run.run_tool("/usr/bin/env", pre + [exe] + args, cwd=cwd, trace=trace, env=env, timeout=300)
 
 
 def lib_job(a):
@@ -314,6 +339,16 @@ def lib_job(a):
                         shutil.copy(os.path.join(d, f), os.path.join(d, keep))
                         rec.setdefault("differs", {})[x] = ("first-" + f, keep)
             res["runs"].append(rec)
+        # the same outputs named by absolute paths (another argument list: compared among themselves)
+        if be == "-python-native":
+            aargs = base + [be, "-oc", os.path.join(d, "abs-" + files["oc"]), "-od", os.path.join(d, "abs-" + files["od"]),
+                            "-oh", os.path.join(d, "abs-" + files["oh"]), "lib%d.h" % k]
+            ab = []
+            for h in (hid[0], hid[1], hid[4]):
+                r = tool_run("interrogate", aargs, d, h, shuf)
+                res["n"] += 1
+                ab.append((h["name"], r.rc, {x: sha(os.path.join(d, "abs-" + f)) for x, f in files.items()}))
+            res["absruns"] = ab
         # without SOURCE_DATE_EPOCH: two runs a second apart
         ne = []
         for ri, h in enumerate((hid[1], hid[3])):
@@ -384,11 +419,12 @@ def run_check(ctx):
     tier = ctx.tier
 
     # ---- TLC --------------------------------------------------------------------------------
-    r0 = tlc.run("ReproMC", "Repro_unfixed", workers=4, timeout=600)
-    ctx.add_tlc(r0)
-    if r0.verdict != "invariant" or r0.violated != "OutputPure":
-        raise MachineryError("Repro without the tie-break must violate OutputPure (the model would be unable "
-                             "to see the defect): verdict %s\n%s" % (r0.verdict, r0.out[-1500:]))
+    for cfg, what in (("Repro_unfixed", "without the tie-break"), ("Repro_pwd", "with a get_cwd() that trusts $PWD")):
+        r0 = tlc.run("ReproMC", cfg, workers=4, timeout=600)
+        ctx.add_tlc(r0)
+        if r0.verdict != "invariant" or r0.violated != "OutputPure":
+            raise MachineryError("Repro %s must violate OutputPure (the model would be unable to see the "
+                                 "defect): verdict %s\n%s" % (what, r0.verdict, r0.out[-1500:]))
     sets, seen = [], set()
     for cfg in CFGS[tier]:
         dump = os.path.join(ctx.tmp, cfg + ".ndjson")
@@ -434,8 +470,9 @@ def run_check(ctx):
     libs, index = [], {}
     for k in range(nlib):
         mine = [(i, rec) for i, rec in enumerate(sets) if i % nlib == k]
-        d = os.path.join(ctx.tmp, "lib%d" % k)
+        d = os.path.join(os.path.realpath(ctx.tmp), "lib%d" % k)
         os.makedirs(d)
+        os.symlink("lib%d" % k, link_of(d))          # the same directory under a second name
         text, names = render_lib(k, mine)
         open(os.path.join(d, "lib%d.h" % k), "w").write(text)
         os.makedirs(os.path.join(d, "inc"))      # found through -I: not "local", so its types are external imports
@@ -477,7 +514,10 @@ def run_check(ctx):
                 "(same arguments, same SOURCE_DATE_EPOCH); e.g. %s" % (
                     be, k, "/".join("-" + x for x in sorted(rec["differs"])), [r["h"] for r in recs],
                     "; ".join("%s(%s)" % (e["function"], " | ".join(",".join(o) for o in e["overloads"]))
-                              for e in ex[:3]) or "see excerpt"),
+                              for e in ex[:3]) or "first difference at line %s: %r vs %r" % tuple(
+                                  [(excerpt.get(x0) or {}).get("line") for x0 in sorted(excerpt)[:1]] +
+                                  [((excerpt.get(x0) or {}).get(w) or [""] * 3)[2:3] for x0 in sorted(excerpt)[:1]
+                                   for w in ("plain", "other")])),
                 dict(args=rec["args"], runs=[r["h"] for r in recs],
                      hidden=[h for h in hidden(tier) if h["name"] in [r["h"] for r in recs]],
                      first_difference=excerpt, functions=ex[:3]))
@@ -498,6 +538,14 @@ def run_check(ctx):
                                   "the database of the same run" % (rr["be"], k, ic, idb), dict(lib=k, backend=rr["be"]))
                 if rr["be"] == "-python-native" and ic is None:
                     raise MachineryError("no file identifier found in python-native code of library %d" % k)
+        if res.get("absruns"):
+            n_cmp += 1
+            if any(rc != 0 or None in sh.values() for _, rc, sh in res["absruns"]):
+                raise MachineryError("interrogate failed with absolute output names on library %d: %r" % (k, res["absruns"]))
+            if len({json.dumps(sh, sort_keys=True) for _, _, sh in res["absruns"]}) != 1:
+                ctx.violation("interrogate -python-native on generated library %d with absolute -oc/-od/-oh names: "
+                              "outputs differ between runs %s" % (k, [n for n, _, _ in res["absruns"]]),
+                              dict(lib=k, runs=res["absruns"]))
         for m in res["mods"]:
             n_cmp += 1
             if any(rc != 0 or s is None for _, rc, s in m["shas"]):
@@ -507,8 +555,9 @@ def run_check(ctx):
                               "between runs %s" % (m["be"], k, [h for h, _, _ in m["shas"]]),
                               dict(lib=k, args=m["args"], shas=m["shas"]))
     # one module of all libraries, several times
-    alld = os.path.join(ctx.tmp, "all")
+    alld = os.path.join(os.path.realpath(ctx.tmp), "all")
     os.makedirs(alld)
+    os.symlink("all", link_of(alld))
     ins = []
     for k, d, _, _ in libs:
         p = os.path.join(d, "pythonnative.in")
